@@ -70,6 +70,26 @@ def replay(obligation, extra):
                 if err:
                     return dict(found=True, input='%s on write #%d (0 = upgrade request); application %s' % (label, k, 'drains the iterator' if consume == 'drain' else 'stops at the terminal event'),
                                 expected='ConnectFail/Disconnected, socket closed, only WebSocketError to the application', observed=err, events=[e.name for e in run.events])
+    # "never ... hangs": the write of the client's own Close frame fails, and afterwards the peer is silent (no bytes, no
+    # EOF, no read error): the close timeout must still end the session
+    for who in ('application close() at the text event', 'echo of a server Close'):
+        for label, exc in (('ECONNRESET', OSError(104, 'reset')), ('RuntimeError', RuntimeError('odd'))):
+            tried += 1
+            clock = harness.Clock(1000.0).install()
+            try:
+                def react(ws, ev, kk, run, who=who):
+                    if who.startswith('application') and ev.name == 'text':
+                        ws.close(1000, b'bye')
+                frames = ref.server_frame(1, b'hello') + (ref.server_frame(8, struct.pack('!H', 1000)) if who.startswith('echo') else b'')
+                run = harness.drive(reads=lambda ws, frames=frames: [harness.response_for(ws.key) + frames] + [('idle', 1)] * 12 + [ref.server_frame(1, b'late'), b''],
+                                    react=react, sock_kwargs=dict(fail_send_at=1, send_exc=exc), connect_kwargs=dict(ping_rate=0, poll=1, close_timeout=3), clock=clock)
+            finally:
+                clock.uninstall()
+            names = [e.name for e in run.events]
+            if run.exception or names[-1] != 'disconnected' or names.count('text') > 1 or names.count('poll') > 6:
+                return dict(found=True, input='%s on the write of the Close frame (%s), then 12 s of silence; close_timeout=3, poll=1' % (label, who),
+                            expected='a Disconnected event about 3 s later (the session must not hang on a Close that never went out)',
+                            observed='%s events: %r' % (run.exception or '', [n for n in names if n != 'poll'] + ['%d polls' % names.count('poll')]))
     for label, exc in (('unresolvable host / refused', OSError(111, 'refused')), ('weird exception', KeyError('x'))):
         tried += 1
         run = harness.drive(connect_exc=exc)
